@@ -6,8 +6,10 @@ import (
 	"bytes"
 	"crypto"
 	"crypto/x509"
+	"crypto/x509/pkix"
 	"errors"
 	"fmt"
+	"math/big"
 	"os"
 	"strconv"
 	"strings"
@@ -37,7 +39,7 @@ func init() {
 			for i := range c03Inits() {
 				u = append(u, "init#"+strconv.Itoa(i))
 			}
-			return u
+			return append(u, "entry-length-residues#0", "entry-length-residues#1")
 		},
 		Run: c03Run,
 		Bound: func(tier string) map[string]any {
@@ -203,9 +205,110 @@ func normDigits(s string) string {
 	return sb.String()
 }
 
+// c03Residues signs with certificates whose sizes sweep every residue of the
+// WIN_CERTIFICATE length mod 8 (subject names of length 1..16), once and twice,
+// with and without re-parsing in between.
+func c03Residues(c *hx.Ctx, shard int) {
+	c.NoOnly = true
+	vtime.Set(time.Date(2024, 5, 6, 7, 8, 9, 0, time.UTC))
+	base := pegen.Build(peBaseLayouts()[shard*2])
+	orig := append([]byte{}, base...)
+	digest0, _, _ := refpe.Digest(base)
+	certs := make([]*x509.Certificate, 17)
+	for l := 1; l <= 16; l++ {
+		certs[l] = keys.Cert(pkix.Name{CommonName: strings.Repeat("n", l)}, big.NewInt(int64(0x900+l)), &keys.K(1).PublicKey, keys.K(1))
+	}
+	residues := map[int]bool{}
+	for l := 1; l <= 16; l++ {
+		for _, reparse := range []bool{false, true} {
+			c.Next()
+			c.Count("transitions", 2)
+			c.Count("traces", 1)
+			hist := []string{fmt.Sprintf("image: layout%d", shard*2), fmt.Sprintf("Sign(k1, CN of %d chars)", l)}
+			w := &c03World{signers: map[int]int{}, orig: orig, digest0: digest0}
+			var v string
+			var d map[string]any
+			pn := hx.Try(func() {
+				var err error
+				w.p, err = authenticode.Parse(bytes.NewReader(base))
+				if err != nil {
+					v = "well-formed image rejected"
+					return
+				}
+				sig, err := w.p.Sign(memoSignerFor(1), certs[l])
+				if err != nil {
+					v = "Sign fails"
+					return
+				}
+				residues[(8+len(sig))%8] = true
+				w.signers[100+l]++
+				if v, d = c03Check(w, w.p.Bytes()); v != "" {
+					return
+				}
+				if reparse {
+					hist = append(hist, "reparse")
+					if w.p, err = authenticode.Parse(bytes.NewReader(w.p.Bytes())); err != nil {
+						v = "output rejected by the library's own parser"
+						return
+					}
+				}
+				l2 := l%16 + 1
+				hist = append(hist, fmt.Sprintf("Sign(k1, CN of %d chars)", l2))
+				if _, err = w.p.Sign(memoSignerFor(1), certs[l2]); err != nil {
+					v = "second Sign fails"
+					return
+				}
+				w.signers[100+l2]++
+				out := w.p.Bytes()
+				if v, d = c03Check(w, out); v != "" {
+					return
+				}
+				rp, err := authenticode.Parse(bytes.NewReader(out))
+				if err != nil {
+					v = "output rejected by the library's own parser"
+					return
+				}
+				for _, obj := range []*authenticode.PECOFFBinary{w.p, rp} {
+					for _, ct := range []*x509.Certificate{certs[l], certs[l2]} {
+						if ok, err := obj.Verify(ct); !ok {
+							v, d = "Verify against a certificate that signed returns false", map[string]any{"error": fmt.Sprint(err)}
+							return
+						}
+					}
+					if sigs, err := obj.Signatures(); err != nil || len(sigs) != 2 {
+						v, d = "Signatures() does not list the 2 entries of the table", map[string]any{"listed": len(sigs), "error": fmt.Sprint(err)}
+						return
+					}
+				}
+			})
+			switch {
+			case pn != nil:
+				c.Outcome("panic")
+				c.Violation("C03 signing history ends in "+pn.String(), map[string]any{"history": hist})
+			case v != "":
+				c.Outcome("state-violation")
+				c.Violation("C03 "+v+" [certificate-size sweep]", map[string]any{"history": hist, "detail": d})
+			default:
+				c.Outcome("state-ok")
+				c.Count("states", 2)
+				c.Nontrivial([]byte(fmt.Sprint(shard, l, reparse)))
+			}
+		}
+	}
+	c.Count("entry_length_residues_mod_8_covered", uint64(len(residues)))
+	if len(residues) < 8 {
+		c.Note("certificate-size sweep covered only %d of 8 residues of the entry length mod 8", len(residues))
+	}
+	c.Sample(map[string]any{"unit": "entry-length-residues", "residues_covered": len(residues)})
+}
+
 func c03Run(c *hx.Ctx, tier, unit string) {
 	c.NoOnly = true
 	vtime.Set(time.Date(2024, 5, 6, 7, 8, 9, 0, time.UTC))
+	if strings.HasPrefix(unit, "entry-length-residues#") {
+		c03Residues(c, int(unit[len(unit)-1]-'0'))
+		return
+	}
 	ii, _ := strconv.Atoi(strings.TrimPrefix(unit, "init#"))
 	in := c03Inits()[ii]
 	ops := c03Ops()
